@@ -1032,6 +1032,8 @@ def rule_wbmisc(text):
     table = [
         (r"Bytes\s*::\s*from\s*\(\s*std\s*::\s*mem\s*::\s*take\s*\(\s*&mut\s+([\w.]+)\s*\)\s*\)", r"bytes_take(&mut \1)", "R-bytes",
          "shim: mem::take leaves an empty Vec, Bytes::from wraps the taken bytes"),
+        (r"std\s*::\s*mem\s*::\s*take\s*\(\s*&mut\s+([\w.]+)\s*\)", r"vec_take_all(&mut \1)", "R-take",
+         "shim: mem::take on a Vec returns its elements and leaves it empty"),
         (r"\.\s*extend\s*\(\s*(\w+)\s*\.\s*drain\s*\(\s*\.\.\s*\)\s*\)", r".extend_drained(&mut \1)", "R-extend",
          "shim: every drained element moves into the receiver, the source is left empty"),
         (r"let\s+jitter\s*=\s*\{\s*use\s+rand::Rng;\s*let\s+mut\s+rng\s*=\s*rand::rng\(\);\s*\(\s*delay_us\s*\*\s*rng\.random_range\(\s*-10\s*\.\.=\s*10\s*\)\s*\)\s*/\s*100\s*\}\s*;",
